@@ -322,11 +322,11 @@ var plainPred = "false"
 
 func modelPass1Chunk(trees []string, pairs [][2]string, outDir string, k int) ([]string, []bool, []int, error) {
 	var b strings.Builder
-	b.WriteString("From GC Require Import Base Model_Regex Model_RegexSimplify Proofs_RegexSimplify Proofs_RegexWalk Proofs_RegexWalkS Model_RegexText.\n")
+	b.WriteString("From GC Require Import Base Model_Regex Model_RegexSimplify Proofs_RegexSimplify Proofs_RegexWalk Proofs_RegexWalkS Model_RegexText Model_RegexParse.\n")
 	b.WriteString("Definition trees : list sx := [\n")
 	b.WriteString(strings.Join(trees, ";\n"))
 	b.WriteString("\n].\nDefinition R := Eval vm_compute in map (fun t => str_bytes (simplify1 t)) trees.\nPrint R.\n")
-	b.WriteString("Definition FRAG := Eval vm_compute in map (fun t => ((if " + plainPred + " then 1 else 0) + (if pass_ok t then 2 else 0))%N) trees.\nPrint FRAG.\nDefinition TT := Eval vm_compute in fold_left N.add (map text_tie_count trees) 0%N.\nPrint TT.\n")
+	b.WriteString("Definition FRAG := Eval vm_compute in map (fun t => ((if " + plainPred + " then 1 else 0) + (if pass_ok t then 2 else 0))%N) trees.\nPrint FRAG.\nDefinition TT := Eval vm_compute in fold_left N.add (map text_tie_count trees) 0%N.\nPrint TT.\nDefinition PT := Eval vm_compute in fold_left N.add (map (fun t => if N.eqb (parse_tie (print t) t) 1 then 1%N else 0%N) trees) 0%N.\nPrint PT.\n")
 	b.WriteString("Definition pairs : list (sx * sx) := [\n")
 	for i, pr := range pairs {
 		if i > 0 {
@@ -374,6 +374,12 @@ func modelPass1Chunk(trees []string, pairs [][2]string, outDir string, k int) ([
 	}
 	if len(frag) != len(trees) {
 		return nil, nil, nil, fmt.Errorf("round 1: %d fragment flags for %d trees", len(frag), len(trees))
+	}
+	if m := rePT.FindStringSubmatch(out); m != nil {
+		n, _ := strconv.Atoi(m[1])
+		textTieMu.Lock()
+		parseTieTrees += n
+		textTieMu.Unlock()
 	}
 	if m := reTT.FindStringSubmatch(out); m != nil {
 		n, _ := strconv.Atoi(m[1])
@@ -451,7 +457,7 @@ func modelFinal(ins [][3]string, outDir string) ([]int, error) {
 				hi = len(ins)
 			}
 			var b strings.Builder
-			b.WriteString("From GC Require Import Base Model_Regex Model_RegexSimplify Proofs_RegexSimplify Proofs_RegexWalk Proofs_RegexWalkS Model_RegexText Proofs_RegexText.\n")
+			b.WriteString("From GC Require Import Base Model_Regex Model_RegexSimplify Proofs_RegexSimplify Proofs_RegexWalk Proofs_RegexWalkS Model_RegexText Proofs_RegexText Model_RegexParse Proofs_RegexParse.\n")
 			b.WriteString("Definition ins : list (sx * option sx * option sx) := [\n")
 			for i, in := range ins[lo:hi] {
 				if i > 0 {
@@ -459,7 +465,7 @@ func modelFinal(ins [][3]string, outDir string) ([]int, error) {
 				}
 				b.WriteString("(" + in[0] + ", " + in[1] + ", " + in[2] + ")")
 			}
-			b.WriteString("\n].\nDefinition FIN := Eval vm_compute in map (fun p => let '(t1, t2, t3) := p in ((if final_ok t1 t2 then 1 else 0) + (if text_guards_ok (final_tree t1 t2) then 2 else 0) + (match t3 with Some t => if same_meaning t1 t then 4 else 0 | None => 0 end))%N) ins.\nPrint FIN.\n")
+			b.WriteString("\n].\nDefinition FIN := Eval vm_compute in map (fun p => let '(t1, t2, t3) := p in ((if final_ok t1 t2 then 1 else 0) + (if text_guards_ok (final_tree t1 t2) then 2 else 0) + (match t3 with Some t => if same_meaning t1 t then 4 else 0 | None => 0 end))%N) ins.\nPrint FIN.\nDefinition TOP := Eval vm_compute in map (fun p => let '(t1, t2, t3) := p in if tree_text_ok (final_tree t1 t2) then 1%N else 0%N) ins.\nPrint TOP.\n")
 			path := filepath.Join(outDir, fmt.Sprintf("round2_c11_%d.v", k))
 			common.WriteFile(path, b.String())
 			args := append([]string{"600", "coqc"}, coqArgs()...)
@@ -473,7 +479,11 @@ func modelFinal(ins [][3]string, outDir string) ([]int, error) {
 				errs[k] = fmt.Errorf("round 2: no result: %s", tailStr(out, 400))
 				return
 			}
-			for _, ch := range out[fi+5:] {
+			fiEnd := strings.Index(out[fi:], "TOP =")
+			if fiEnd < 0 {
+				fiEnd = len(out) - fi
+			}
+			for _, ch := range out[fi+5 : fi+fiEnd] {
 				if ch >= '0' && ch <= '7' {
 					res[k] = append(res[k], int(ch-'0'))
 				}
@@ -483,6 +493,28 @@ func modelFinal(ins [][3]string, outDir string) ([]int, error) {
 			}
 			if len(res[k]) != hi-lo {
 				errs[k] = fmt.Errorf("round 2: %d flags for %d inputs", len(res[k]), hi-lo)
+				return
+			}
+			// tree_text_ok of the final tree: bit 3
+			ti := strings.Index(out, "TOP =")
+			if ti < 0 {
+				errs[k] = fmt.Errorf("round 2: no TOP result: %s", tailStr(out, 400))
+				return
+			}
+			j := 0
+			for _, ch := range out[ti+5:] {
+				if ch == '0' || ch == '1' {
+					if j < len(res[k]) && ch == '1' {
+						res[k][j] |= 8
+					}
+					j++
+				}
+				if ch == ':' {
+					break
+				}
+			}
+			if j != hi-lo {
+				errs[k] = fmt.Errorf("round 2: %d TOP flags for %d inputs", j, hi-lo)
 			}
 		}(k)
 	}
@@ -501,6 +533,8 @@ func modelFinal(ins [][3]string, outDir string) ([]int, error) {
 
 var (
 	reTT         = regexp.MustCompile(`TT = (\d+)`)
+	rePT         = regexp.MustCompile(`PT = (\d+)`)
+	parseTieTrees int
 	textTieMu    sync.Mutex
 	textTieNodes int
 )
@@ -1098,6 +1132,7 @@ func Run(tier string, seed int64, outDir string) *common.Meta {
 	meta := &common.Meta{Property: "C11", Distribution: map[string]interface{}{}, CaseFiles: []string{}}
 	thorough := tier == "thorough"
 	textTieNodes = 0
+	parseTieTrees = 0
 	plainPred = "false"
 	if thorough || os.Getenv("VERIF_C11_BEFORE") != "" {
 		plainPred = "in_fragment t && avoids_defects t"
@@ -1271,6 +1306,8 @@ func Run(tier string, seed int64, outDir string) *common.Meta {
 	}
 	meta.Distribution["patterns_covered_by_fragment_theorem"] = nFrag
 	meta.Distribution["class_nodes_and_literal_runs_reparsed_by_text_model"] = textTieNodes
+	meta.Distribution["pattern_trees_reproduced_by_the_parse_model_from_their_text"] = parseTieTrees
+	meta.Distribution["pattern_trees_total"] = len(round1)
 	meta.Distribution["rewrites_covered_by_fragment_theorem_pass1"] = nFragRw
 	if plainPred != "false" {
 		meta.Distribution["patterns_covered_by_the_earlier_capture_free_flag_free_theorem"] = nPlain
@@ -1280,6 +1317,7 @@ func Run(tier string, seed int64, outDir string) *common.Meta {
 	t2of := make([]string, len(pats))
 	finalCov := make([]bool, len(pats))
 	textOK := make([]bool, len(pats))
+	topOK := make([]bool, len(pats))
 	{
 		var ins [][3]string
 		var insIdx []int
@@ -1300,11 +1338,15 @@ func Run(tier string, seed int64, outDir string) *common.Meta {
 			meta.TieBroken = append(meta.TieBroken, err.Error())
 			return meta
 		}
-		nFin, nText, nBoth, nCert := 0, 0, 0, 0
+		nFin, nText, nBoth, nCert, nTop := 0, 0, 0, 0, 0
 		for k, i := range insIdx {
 			finalCov[i] = fin[k]&1 != 0
 			textOK[i] = fin[k]&2 != 0
 			certified[i] = fin[k]&4 != 0
+			topOK[i] = fin[k]&8 != 0
+			if rewrites[i] != "" && finalCov[i] && topOK[i] {
+				nTop++
+			}
 			if certified[i] {
 				nCert++
 			}
@@ -1324,12 +1366,13 @@ func Run(tier string, seed int64, outDir string) *common.Meta {
 		meta.Distribution["rewrites_whose_final_text_tree_is_covered_by_final_theorem"] = nFin
 		meta.Distribution["rewrites_whose_final_tree_satisfies_the_text_roundtrip_guards"] = nText
 		meta.Distribution["rewrites_inside_both_theorem_domains"] = nBoth
+		meta.Distribution["rewrites_under_the_printed_rewrite_theorem"] = nTop
 		meta.Distribution["rewrites_certified_equivalent_by_kernel"] = nCert
 	}
 
 	mark("coq_round1+round2")
 	// 4. simplifier cases
-	hdr := `From GC Require Import Base Model_Regex Model_RegexSimplify Proofs_RegexSimplify Proofs_RegexWalk Proofs_RegexWalkS Model_RegexText.
+	hdr := `From GC Require Import Base Model_Regex Model_RegexSimplify Proofs_RegexSimplify Proofs_RegexWalk Proofs_RegexWalkS Model_RegexText Model_RegexParse.
 Record case := { k_pat : string; k_tree : option sx; k_c1 : string; k_tree2 : option sx; k_obs : option string;
                  k_tree3 : option sx; k_cert : bool; k_frag : bool; k_fin : bool; k_call : string }.
 Definition ostr_eqb (a b : option string) : bool :=
@@ -1343,6 +1386,11 @@ Definition case_ok (k : case) : bool :=
       String.eqb (print t) (k_pat k)                                   (* the dump is the tree of this text *)
       && text_tie_ok t                   (* Model_RegexText reads every class / literal run of the tree back from its Value *)
       && match k_tree2 k with Some t2 => text_tie_ok t2 | None => true end
+      (* Model_RegexParse (whole patterns): lexing and parsing the text reproduces the dumped tree, for the pattern, the
+         first-pass text and the final rewrite *)
+      && negb (N.eqb (parse_tie (k_pat k) t) 2)
+      && match k_tree2 k with Some t2 => negb (N.eqb (parse_tie (k_c1 k) t2) 2) | None => true end
+      && match k_tree3 k, k_obs k with Some t3, Some rw => negb (N.eqb (parse_tie rw t3) 2) | _, _ => true end
       && String.eqb (simplify1 t) (k_c1 k)                              (* pass 1 as used for k_tree2 *)
       (* that the tree version of the walker prints the text version is a theorem: C11_walk_text_is_print_of_tree *)
       && ostr_eqb (simplify2 (k_pat k) t (fun s => if String.eqb s (k_c1 k) then k_tree2 k else None)) (k_obs k)
@@ -1566,6 +1614,7 @@ Definition cases : list case := [
 	coveredRefuted := map[string]int{}
 	finalCoveredRefuted := map[string]int{}
 	bothRefuted := map[string]int{}
+	topRefuted := map[string]int{}
 	outsideRefuted, outsideClean := 0, 0
 	shrunkPerClass := map[string]int{}
 	for i, p := range pats {
@@ -1606,6 +1655,10 @@ Definition cases : list case := [
 			// every pass is proved sound at tree level and each pass started from a tree meaning what the previous
 			// one emitted: the damage can only be that Go reads the final TEXT differently from the final tree
 			finalCoveredRefuted[class]++
+			if topOK[i] {
+				topRefuted[class]++
+				meta.TieBroken = append(meta.TieBroken, fmt.Sprintf("%q => %q satisfies the hypotheses of C11_printed_rewrite_sound_partial, yet Go's regexp distinguishes them: %s", p, rewrites[i], describe(d)))
+			}
 			if textOK[i] {
 				// ... and the final tree passes the guards of the text-level round-trip theorems: the text model
 				// (classes, literal runs) claims nothing changes meaning by its new neighbours. A refutation here is a
@@ -1650,6 +1703,7 @@ Definition cases : list case := [
 	meta.Distribution["oracle_refuted_although_pass1_tree_proved_sound"] = coveredRefuted
 	meta.Distribution["oracle_refuted_although_final_tree_proved_sound"] = finalCoveredRefuted
 	meta.Distribution["oracle_refuted_inside_both_theorem_domains"] = bothRefuted
+	meta.Distribution["oracle_refuted_under_the_printed_rewrite_theorem"] = topRefuted
 	meta.Distribution["rewrites_outside_one_pass_theorem_refuted_by_oracle"] = outsideRefuted
 	meta.Distribution["rewrites_outside_one_pass_theorem_not_refuted"] = outsideClean
 	meta.Evaluations = len(pats) + semRuns + subjectsTried
